@@ -477,7 +477,8 @@ class Effects:
                 elif isinstance(n, ast.Call) and isinstance(n.func, ast.Name):
                     # nested helper closures share `self`
                     for c in self.resolve_call(rel, q, n):
-                        if c[0] == rel and c[1].startswith(q.rsplit('.', 1)[0]):
+                        # (a call of the class by its name builds a fresh object: its constructor does not write the receiver)
+                        if c[0] == rel and c[1].startswith(q.rsplit('.', 1)[0]) and c[1].count('.') >= 2:
                             cs.append(c)
                 elif isinstance(n, (ast.Assign, ast.AugAssign, ast.Delete)):
                     for t in (n.targets if not isinstance(n, ast.AugAssign) else [n.target]):
